@@ -56,12 +56,46 @@ def handler_body_nodes(cfg: CFG, h: HandlerInfo) -> List[Node]:
 
 
 def translation(ctx, fi: FuncInfo, n: Node, exc: str) -> Tuple[Optional[HandlerInfo], List[Node], List[Node]]:
-    """(handler, raise nodes, return nodes) for exception *exc* raised at node *n*."""
+    """(handler, raise nodes, return nodes) for exception *exc* raised at node *n*.
+
+    A handler shared by several exception classes that dispatches with ``isinstance(e, T)`` (directly or in a
+    helper it hands the exception to) is followed for *exc* only: tests on the class of the caught object are
+    decided from the class hierarchy."""
     cfg = ctx.cfg(fi)
     h = handler_catching(cfg, n, exc)
     if h is None:
         return None, [], []
     body = handler_body_nodes(cfg, h)
+    if len(h.types or []) > 1 or any(isinstance(b.ast, ast.Call) and dotted(b.ast.func) == "isinstance" for b in body if b.kind == "test"):
+        from ..dataflow import DefUse as _DU, origins as _orig
+        du = _DU(cfg)
+        hier = cfg.hier
+
+        def decide(t):
+            if not (isinstance(t, ast.Call) and dotted(t.func) == "isinstance" and len(t.args) == 2):
+                return None
+            os_ = _orig(du, h.entry, t.args[0]) if False else None
+            # the tested object must be the caught exception
+            tested = t.args[0]
+            node_of_test = [b for b in cfg.nodes if b.kind == "test" and b.ast is t]
+            if not node_of_test:
+                return None
+            os_ = _orig(du, node_of_test[0], tested)
+            if not (os_ and all(o.node is h.entry for o in os_)):
+                return None
+            types = t.args[1].elts if isinstance(t.args[1], ast.Tuple) else [t.args[1]]
+            names = [(dotted(x) or "").split(".")[-1] for x in types]
+            if any(hier.is_sub(exc, nm) for nm in names if nm):
+                return True
+            if all(nm and not hier.is_sub(nm, exc) for nm in names):
+                return False
+            return None
+
+        try:
+            reached = const_walk(cfg, [m for m, l in h.entry.succ if l != "exc"], {}, decide=decide)
+            body = [b for b in body if b.id in reached]
+        except AnalysisError:
+            pass
     return h, [b for b in body if b.kind == "raise"], [b for b in body if b.kind == "return"]
 
 
@@ -509,3 +543,33 @@ def const_at(ctx, fi: FuncInfo, du: DefUse, node: Node, e: ast.AST):
         if len(vals) == 1:
             return vals[0]
     return None
+
+
+def metadata_savers(ctx):
+    """[(function, call, callback FuncInfo | None)] for every ``FileBasedCollectionMetadata(parser, save=<callback>)``
+    built in the store layer; the callback may be a nested function, a module-level function or a bound method."""
+    from ..core import walk_local as _wl
+    out = []
+    for fi in ctx.P.all_funcs():
+        if not fi.module.name.startswith("xandikos.store") or (fi.cls is not None and fi.cls.qualname.endswith("FileBasedCollectionMetadata")):
+            continue
+        for n in _wl(fi.node):
+            if isinstance(n, ast.Call) and (dotted(n.func) or "").split(".")[-1] == "FileBasedCollectionMetadata":
+                cb = [k.value for k in n.keywords if k.arg == "save"] + list(n.args[1:2])
+                target = None
+                if cb:
+                    e = cb[0]
+                    if isinstance(e, ast.Name):
+                        kind, obj = ctx.P.resolve_dotted(fi.module, e.id, fi)
+                        if kind == "func":
+                            target = obj
+                    elif isinstance(e, ast.Attribute) and dotted(e.value) in ("self", "cls"):
+                        owner = fi.cls
+                        f_ = fi
+                        while owner is None and f_.parent is not None:
+                            f_ = f_.parent
+                            owner = f_.cls
+                        if owner is not None:
+                            target = ctx.P.lookup_method(owner, e.attr)
+                out.append((fi, n, target))
+    return out
